@@ -84,6 +84,14 @@ def generate(ctx, rng):
     for j, lens in enumerate(combos):
         yield ("wire-edge", j), {"kind": "wire", "frame": rng.randbytes(rng.choice(edge)), "id": rng.choice(BOUNDARY_IDS),
                                  "responses": [rng.randbytes(n) for n in lens], "epoch": _rand_epoch(rng), "drop_first": 0}
+    # many responses to one request (each its own segment), and a peer that answers and closes the connection at once
+    for j, nresp in enumerate([15, 16, 17, 18, 31, 32, 33, 64, 65, 100, 257]):
+        yield ("wire-many", j), {"kind": "wire", "frame": rng.randbytes(9), "id": rng.choice(BOUNDARY_IDS), "epoch": _rand_epoch(rng), "drop_first": 0,
+                                 "responses": [bytes([k & 0xFF, k >> 8]) + rng.randbytes(rng.randint(0, 30)) for k in range(nresp)]}
+    for j in range(24 if ctx.tier == "quick" else 600):
+        yield ("wire-close", j), {"kind": "wire", "frame": rng.randbytes(rng.randint(0, 40)), "id": rng.choice(BOUNDARY_IDS), "epoch": _rand_epoch(rng),
+                                  "drop_first": 0, "responses": [rng.randbytes(rng.randint(0, 60)) for _ in range(rng.choice([1, 1, 2]))],
+                                  "then": rng.choice(["fin", "rst"])}
     for j in range(n_wire):
         L = j % 256 if j < 256 else rng.randint(0, 255)
         nresp = rng.choice([1, 1, 2, 3])
@@ -279,7 +287,7 @@ def _wire(ctx, case, frame, did):
         seen.append((req_frame, meta["v2"]["device_id"]))
         if len(seen) <= case.get("drop_first", 0):
             return []          # this transmission is lost: the client must retransmit the same frame
-        return [(0, v2.build(r, did, msg_id=bytes([i, 0, 0, 0]))) for i, r in enumerate(responses)]
+        return [(0, v2.build(r, did, msg_id=bytes([i & 0xFF, 0, 0, 0]))) for i, r in enumerate(responses)] + ([(0, case["then"])] if case.get("then") else [])
 
     dev.on_exchange = on_exchange
 
